@@ -65,6 +65,7 @@ type c13W struct {
 	arts  map[string][]string
 	dynID string
 	dynTok string
+	refs  map[string]string // request objects served by reference (URL -> body)
 }
 
 const c13Secret = "secret-of-the-c13-client-0123456789"
@@ -131,6 +132,9 @@ func (t c13rt) RoundTrip(r *http.Request) (*http.Response, error) {
 	if r.Body != nil {
 		_, _ = io.ReadAll(r.Body)
 	}
+	if body, ok := t.w.refs[r.URL.String()]; ok {
+		return &http.Response{StatusCode: 200, Body: io.NopCloser(strings.NewReader(body)), Header: http.Header{}}, nil
+	}
 	code := 404
 	if strings.HasSuffix(r.URL.Path, "/notify") {
 		code = 204
@@ -146,7 +150,7 @@ func newC13World(r *mrand.Rand, flavour, pfx string, variant int) (*c13W, error)
 		keyCache = append(keyCache, genKey())
 		certCache = append(certCache, genCert(fmt.Sprintf("client%d.example", len(certCache)+1)))
 	}
-	w := &c13W{name: fmt.Sprintf("%s%s/v%d", flavour, pfx, variant), stores: NewStores(flavour), pfx: pfx, r: r, arts: map[string][]string{}, owner: map[string]string{},
+	w := &c13W{name: fmt.Sprintf("%s%s/v%d", flavour, pfx, variant), stores: NewStores(flavour), pfx: pfx, r: r, arts: map[string][]string{}, owner: map[string]string{}, refs: map[string]string{},
 		polMode: "success", baMode: "approve"}
 	w.ckey = genKey()
 	w.rsaK, _ = rsa.GenerateKey(rand.Reader, 2048)
@@ -398,7 +402,13 @@ type snap struct {
 
 func asJSON(v any) string { b, _ := json.Marshal(v); return string(b) }
 
-// frameDiff explains how `after` differs from `before` beyond deletions tied to a presented credential
+// frameDiff explains how `after` differs from `before` beyond what the property allows a refused
+// request to do: delete the session indexed by a one-time credential it presented (code, request_uri,
+// auth_req_id, callback id) and the grant issued from a presented code / holding a presented refresh
+// token or token.  Every changed object is attributed to the request by comparing the object's own
+// index fields with the NON-EMPTY values the request carried in its credential-bearing fields: an
+// object none of them names belongs to another party (foreign-...).  An empty or missing credential
+// names nothing.
 func frameDiff(before, after string, presented []string) string {
 	if before == after {
 		return ""
@@ -427,7 +437,7 @@ func frameDiff(before, after string, presented []string) string {
 		now, ok := am[s.ID]
 		if !ok {
 			if !(pres[s.AuthCode] || pres[s.PushedAuthReqID] || pres[s.CIBAAuthID] || pres[s.CallbackID]) {
-				return "unrelated-session-deleted"
+				return "foreign-session-deleted"
 			}
 			continue
 		}
@@ -443,7 +453,7 @@ func frameDiff(before, after string, presented []string) string {
 		now, ok := gm[g.ID]
 		if !ok {
 			if !(pres[g.AuthorizationCode] || pres[g.RefreshToken] || pres[g.TokenID]) {
-				return "unrelated-grant-deleted"
+				return "foreign-grant-deleted"
 			}
 			continue
 		}
@@ -680,6 +690,23 @@ func (w *c13W) seed() {
 		res := w.postForm("/bc-authorize", f, h)
 		w.add("auth_req_id", jsonField(res.Body, "auth_req_id"))
 		w.owner[jsonField(res.Body, "auth_req_id")] = cid
+	}
+	// grants of further kinds, so that a refused request always has other parties' state to leave alone:
+	// implicit, jwt-bearer, and a CIBA grant (poll client)
+	{
+		q := url.Values{"client_id": {"c1"}, "response_type": {"token"}, "scope": {"openid email"}, "redirect_uri": {c13Redirect}, "state": {"im"}, "nonce": {"n2"}}
+		res := w.do(rawReq{Method: "GET", Target: w.pfx + "/authorize?" + q.Encode(), Fault: -1})
+		w.add("access_token", locParam(res.Loc, "access_token"))
+		var h [][2]string
+		res = w.postForm("/token", w.auth("c1", form{{"grant_type", "urn:ietf:params:oauth:grant-type:jwt-bearer"}, {"assertion", "ok:user1"}, {"scope", "email"}}, &h), h)
+		w.add("access_token", jsonField(res.Body, "access_token"))
+		h = nil
+		res = w.postForm("/bc-authorize", w.auth("c1", form{{"scope", "openid email"}, {"login_hint", "user1"}}, &h), h)
+		if id := jsonField(res.Body, "auth_req_id"); id != "" {
+			h = nil
+			res = w.postForm("/token", w.auth("c1", form{{"grant_type", "urn:openid:params:grant-type:ciba"}, {"auth_req_id", id}}, &h), h)
+			w.add("access_token", jsonField(res.Body, "access_token"))
+		}
 	}
 	w.polMode = "inprogress"
 	for i := 0; i < 2; i++ {
@@ -1215,7 +1242,7 @@ func c13ModelCases(ctx *RunCtx, n int) {
 			g.W.name(junkFor(r.Intn(100)), h)
 			cl := pick(r, g.clients())
 			op := Op{Kind: "Token", Cred: Cred{ID: cl.ID, OK: true}, HG: "HgOk", BA: "BaApprove", Redirect: "https://c1.example/cb"}
-			switch r.Intn(4) {
+			switch r.Intn(7) {
 			case 0:
 				op.Grant, op.Code = "authorization_code", h
 			case 1:
@@ -1224,6 +1251,13 @@ func c13ModelCases(ctx *RunCtx, n int) {
 				op.Grant, op.AuthReq = "urn:openid:params:grant-type:ciba", h
 			case 3:
 				op.Grant, op.Scope = "client_credentials", "openid"
+			// the credential left out altogether: it names nothing, whatever the store holds
+			case 4:
+				op.Grant, h = "authorization_code", 0
+			case 5:
+				op.Grant, h = "refresh_token", 0
+			case 6:
+				op.Grant, h = "urn:openid:params:grant-type:ciba", 0
 			}
 			if g.has("WithDPoP") && r.Intn(3) == 0 {
 				op.Bind = Bind{Dpop: &Proof{Parses: false, Htu: "HtuExact"}}
@@ -1235,7 +1269,11 @@ func c13ModelCases(ctx *RunCtx, n int) {
 			obs := g.do(op)
 			after := g.W.Stores.Snapshot()
 			if obs.Kind == "Err" {
-				if d := frameDiff(before, after, []string{g.W.concrete(h)}); d != "" {
+				pres := []string{}
+				if h != 0 {
+					pres = append(pres, g.W.concrete(h))
+				}
+				if d := frameDiff(before, after, pres); d != "" {
 					ctx.Meta.Findings = append(ctx.Meta.Findings, Finding{Property: "C13", Signature: "frame:/token:" + d,
 						What: "refused token request changed the store: " + d, Replay: map[string]any{"Spec": g.W.Spec, "Ops": g.Ops}})
 				}
@@ -1274,8 +1312,14 @@ func (c *RunCtx) writeSysCasesHdr(header, monitor string, strict bool) {
 
 func init() {
 	register(&Suite{Name: "c13", Run: func(ctx *RunCtx) {
-		c13Stream(ctx, ctx.N(3000, 100000))
-		ctx.Meta.Rule = "malformed stream through provider.Handler() of providers with every optional feature enabled (alias and copy storage, with and without path prefix): all methods x routes and near-routes, broken percent-encoding, duplicated and 64 KB parameters, JWS/JWE/UUID-shaped and 99-char junk in every token-bearing field, junk DPoP/Authorization headers, invalid/huge/ill-typed JSON to /register, unparsable pushed redirect URIs; distinct = distinct (method, route, status, error code)"
+		t0 := time.Now()
+		c13Stream(ctx, ctx.N(3000, 85000))
+		t1 := time.Now()
+		c13Incomplete(ctx)
+		t2 := time.Now()
+		c13EmptyCreds(ctx)
+		ctx.Meta.Extra["seconds_stream_incomplete_empty"] = []float64{t1.Sub(t0).Seconds(), t2.Sub(t1).Seconds(), time.Since(t2).Seconds()}
+		ctx.Meta.Rule = "malformed stream through provider.Handler() of providers with every optional feature enabled (alias and copy storage, with and without path prefix): all methods x routes and near-routes, broken percent-encoding, duplicated and 64 KB parameters, JWS/JWE/UUID-shaped and 99-char junk in every token-bearing field, junk DPoP/Authorization headers, invalid/huge/ill-typed JSON to /register, unparsable pushed redirect URIs; then well-formed-but-incomplete artifacts (correctly signed DPoP proofs, client assertions, request objects by value / reference / JWE / CIBA, id_token_hints with each header member and claim removed, nulled or retyped in turn) at every entry point in every state that changes what the handler expects (dpop_jkt or not, code of a plain / dpop_jkt / pushed / proof-bound session, refresh token of a bound / unbound grant of a public / confidential client, bound / unbound token at userinfo, introspection, revocation), and empty / missing / blank values in every credential-bearing field (code, refresh_token, auth_req_id, request_uri, token, bearer token, callback id, registration id) by authenticated and unauthenticated clients while the store holds other parties' pushed, in-progress, CIBA and code sessions and client_credentials / code / implicit / jwt-bearer / CIBA grants; distinct = distinct (probe kind, method, route, status, error code)"
 	}})
 	register(&Suite{Name: "c13model", Run: func(ctx *RunCtx) {
 		c13ModelCases(ctx, ctx.N(40, 600))
